@@ -77,6 +77,7 @@ fn base_cfg(r: &mut SimRng, prop: &str, max_steps: u64) -> W4Cfg {
         seeds_differ: false,
         path: vec![],
         centre: r.range(200, 100_000) as u32,
+        quote_by_modify: false,
     }
 }
 
@@ -258,6 +259,7 @@ pub fn generate_c17(seed: u64) -> W4Scn {
         path.push((off, style != 4 && r.chance(0.3)));
     }
     cfg.path = path;
+    cfg.quote_by_modify = r.chance(0.35);
     cfg.n_steps = len as u64;
     W4Scn { cfg, agents: vec![spec], initial: vec![], inject: vec![] }
 }
